@@ -118,7 +118,8 @@ def judgeCase (_k : Nat) (lines : List String) : Verdict := Id.run do
   let tx := (toks.find? (·.head? == some "tx")).map (·.getD 1 "0") == some "1"
   -- which repairs the tree under test carries (probed by the harness): selects the model variant for the tie
   let fixTok := (toks.find? (·.head? == some "fixes")).getD []
-  let fx : Fix := { notFoundWhenAllMissing := fixTok.contains "ec=1", healParity := fixTok.contains "parity=1" }
+  let fx : Fix := { notFoundWhenAllMissing := fixTok.contains "ec=1", healParity := fixTok.contains "parity=1",
+                    endWhenEnoughEnded := fixTok.contains "trail=1", failWhenTooFewOpen := fixTok.contains "fewopen=1" }
   let faulted := faults.foldl (applyFault origB) (origA.map some)
   -- the model's healing read
   let decode (t : List String) : Option (String × Bytes) :=
@@ -204,7 +205,7 @@ def judgeCase (_k : Nat) (lines : List String) : Verdict := Id.run do
     fingerprint := fpLines (lines.filter fun l => !(l.startsWith "orig ")),
     stats := [("faults", faults.length), (s!"faulty_shards_{faultyShards.length}", 1), (s!"cfg_{c.d}_{c.p}", 1),
               (if few then "at_most_parity" else "more_than_parity", 1), (s!"read_{i1.1}", 1), (if tx then "tx" else "notx", 1),
-              (s!"model_variant_ec{if fx.notFoundWhenAllMissing then 1 else 0}_parity{if fx.healParity then 1 else 0}", 1)]
+              (s!"model_variant_ec{if fx.notFoundWhenAllMissing then 1 else 0}_parity{if fx.healParity then 1 else 0}_trail{if fx.endWhenEnoughEnded then 1 else 0}_fewopen{if fx.failWhenTooFewOpen then 1 else 0}", 1)]
              ++ kinds.map fun kd => (s!"kind_{kd}", 1),
     samples := [String.intercalate ";" ((lines.filter fun l => l.startsWith "fault " || l.startsWith "cfg " || l.startsWith "read").map fun l => (l.take 50).toString)]
   }
